@@ -21,6 +21,20 @@ Added probe family (round 7, v8_c04):
     T is judged like a one-shot definition of the members declared so far: layout vs C rule / ctypes / Lean model, len(T) =
     sizeof(T) = bytes consumed (offset 0 and a later aligned offset) = len(dumps()), T[3] = 3*len(T); definitions loaded
     afterwards that use sizeof(T) or embed T (T t; T t[n]) must see the extended type.
+Added probe family (round 8, v9_c04):
+  * sizeof OVER EVERY NAME: on a fresh cstruct instance and on instances loaded by a random history (structs / unions, also
+    as typedef struct {..} A, B; enums, flags; typedefs of scalars, arrays, pointers; cs.add_type(name, 'other name') string
+    references and their chains, cs.add_type(name, class); legacy-parser typedefs; cs.load / cs.loadfile), EVERY name of
+    cs.typedefs - classes, string references (short, int, DWORD, uint32_t, u4, _BYTE, ...), user names - is visited:
+    len(cs.resolve(N)) = the C size of the name (table of the built-in spellings / C rule on the generator's tree / element
+    count x element size / pointer width / enum base), bytes consumed through a random public entry point (class call, .read,
+    .reads, cs.read on bytes / bytearray / memoryview / BytesIO / real file) = bytes dumped = that size; sizeof(N) inside
+    random arithmetic evaluates to the same arithmetic on the C sizes through Expression.evaluate, through a #define, as an
+    enum value (token and legacy parser), as a static array dimension `EL raw[e]` (also [k][e], in a union, through a
+    #define'd constant; cs.load / cs.loadfile / legacy parser; packed and aligned; compiled and interpreted: len, sizeof,
+    offsets = C layout, consumed = dumped = len, element count), inside a run-time dimension together with a member
+    (`raw[n * sizeof(N)]`: bytes consumed / dumped, element count, position of the following member) and in an array type
+    made through the API (cs.resolve(EL)[Expression(cs, e)]).
 """
 from __future__ import annotations
 
@@ -28,7 +42,7 @@ import ctypes
 import itertools
 import sys
 
-from .. import common, defs, impl, refimpl, s1_hist, s1_mixed, v8_c04
+from .. import common, defs, impl, refimpl, s1_hist, s1_mixed, v8_c04, v9_c04
 from ..common import Case, Result, mkrng
 from ..structprops import Engine, load, is_dynamic, bits_after_dynamic, small_unit_bits, has_union, has, rand_bytes
 
@@ -263,7 +277,11 @@ def run(env) -> Result:
                 "and for the definition with named (hoisted) sub-definitions; pointer-width histories on one instance (load, change "
                 "cs.pointer, load again); incremental definitions: T loaded from text with its first members, then extended by add_field "
                 "commits and start_update batches - layout and size agreement (also T[3], sizeof(T) in later definitions, later "
-                "structures embedding T) after the commits. distinct = (definition text, align, pointer); non-trivial = >= 2 fields or a composite field")
+                "structures embedding T) after the commits; sizeof over every name: on fresh and randomly loaded instances every name of "
+                "cs.typedefs (classes, string references such as int/DWORD/uint32_t/u4, add_type aliases and chains, typedefs of arrays / "
+                "pointers / structs, enums, legacy typedefs) has len = C size = bytes consumed (random public entry point) = bytes dumped, and "
+                "sizeof(name) inside random arithmetic gives the C value through Expression, #define, enum values, static array dimensions "
+                "(C layout, sizes, element count; load / loadfile / legacy parser), run-time dimensions and API-made array types. distinct = (definition text, align, pointer); non-trivial = >= 2 fields or a composite field")
     eng = Engine(env, res, "C04")
     rnd = mkrng(env["seed"], "c04")
     tier = env["tier"]
@@ -315,6 +333,7 @@ def run(env) -> Result:
             eng.flush()
     seen_ct += pointer_histories(eng, res, mkrng(env["seed"], "c04-pointer-history"), tier)
     v8_c04.run(sys.modules[__name__], eng, res, mkrng(env["seed"], "c04-extended"), tier)
+    v9_c04.run(sys.modules[__name__], eng, res, mkrng(env["seed"], "c04-sizeof-names"), tier)
     eng.flush()
     res.notes.append(f"{seen_ct} layouts were also compared with ctypes (platform ABI)")
     res.sample({"definition": defs.render_struct("T", trees[-1]), "aligned_layout_example": "see feature histogram"})
